@@ -55,7 +55,7 @@ Print Assumptions C01_gates_unitary.
 (* non-vacuity: a concrete 3-qubit register over the integers (exact arithmetic), every index *)
 Definition Zops : sops Z :=
   {| s0 := 0%Z; s1 := 1%Z; s2 := 2%Z; sadd := Z.add; ssub := Z.sub; smul := Z.mul; sdiv := Z.div;
-     sneg := Z.opp; ssqrt := Z.sqrt; scos := fun x => x; ssin := fun x => x; sltb := Z.ltb |}.
+     sneg := Z.opp; ssqrt := Z.sqrt; scos := fun x => x; ssin := fun x => x; sltb := Z.ltb; sis0 := Z.eqb 0%Z |}.
 Definition st3 : list (C (F:=Z)) := [(1,2);(3,-1);(0,5);(7,7);(-2,4);(6,0);(1,1);(-3,2)]%Z.
 Definition mz : mat (F:=Z) := ((2,1),(0,-3),(1,1),(5,2))%Z.
 Example ex_apply1 : apply1 Zops 1 mz st3 = map (embed1 Zops 1 mz st3) (seq 0 8) /\ apply1 Zops 1 mz st3 <> st3.
